@@ -1779,6 +1779,7 @@ impl<'a, MutexType, T> FusedFuture for ChannelReceiveFuture<'a, MutexType, T> {'
     {'name': 'benign-feature-RF34-oneshot-with-value', 'props': ALLP + ['C16'], 'patch': 'benign/RF34/patch.diff'},
     {'name': 'benign-feature-RF35-state-broadcast-send-replace', 'props': ALLP + ['C16'], 'patch': 'benign/RF35/patch.diff'},
     {'name': 'benign-feature-RF36-timer-reset', 'props': ALLP + ['C16'], 'patch': 'benign/RF36/patch.diff'},
+    {'name': 'benign-refactor-RF37-event-set-looks-first', 'props': ALLP + ['C16'], 'patch': 'benign/RF37/patch.diff'},
     {'name': 'benign-unrelated-additions', 'props': ALLP, 'edits': [
         {'file': 'src/sync/semaphore.rs',
          'old': '''    /// Returns the amount of permits that are available on the semaphore
